@@ -219,10 +219,12 @@ func (w *World) do(r Req) (result string, wire *kit.Wire, err error) {
 	defer w.shared.Forget(r.Token)
 	tk := r.Token
 	q := "p=" + tk
+	// entity keys carry characters the path writer has to escape (URN-like keys), encoded by the library per request
+	ent := kit.EntityPath("/things/", "urn:li:("+tk+",1) é")
 	body := []byte(fmt.Sprintf(`{"v":%q}`, tk))
 	switch r.Kind {
 	case "get":
-		v, wr, e := t.Get("things", "/things/"+tk, &q)
+		v, wr, e := t.Get("things", ent, &q)
 		if v != nil {
 			result = string(v.JSON)
 		}
@@ -241,13 +243,13 @@ func (w *World) do(r Req) (result string, wire *kit.Wire, err error) {
 		return result, wr, e
 	case "get-long":
 		long := "p=" + tk + "&pad=" + strings.Repeat("a", 400) // above the tunnelling threshold
-		v, wr, e := t.Get("things", "/things/"+tk, &long)
+		v, wr, e := t.Get("things", ent, &long)
 		if v != nil {
 			result = string(v.JSON)
 		}
 		return result, wr, e
 	case "get-sub":
-		v, wr, e := t.Get("things", "/things/"+tk+"/parts/sub-"+tk, &q)
+		v, wr, e := t.Get("things", kit.EntityPath(ent+"/parts/", "sub:("+tk+")"), &q)
 		if v != nil {
 			result = string(v.JSON)
 		}
@@ -268,13 +270,13 @@ func (w *World) do(r Req) (result string, wire *kit.Wire, err error) {
 		id, st, wr, e := t.Create("things", "/things", body)
 		return fmt.Sprintf("id=%s status=%d", id, st), wr, e
 	case "update":
-		wr, e := t.Update("things", "/things/"+tk, body)
+		wr, e := t.Update("things", ent, body)
 		return "", wr, e
 	case "partial_update":
-		wr, e := t.PartialUpdate("things", "/things/"+tk, []byte(fmt.Sprintf(`{"patch":{"$set":{"v":%q}}}`, tk)))
+		wr, e := t.PartialUpdate("things", ent, []byte(fmt.Sprintf(`{"patch":{"$set":{"v":%q}}}`, tk)))
 		return "", wr, e
 	case "delete":
-		wr, e := t.Delete("things", "/things/"+tk)
+		wr, e := t.Delete("things", ent)
 		return "", wr, e
 	case "batch_get":
 		b, wr, e := t.BatchGet("things", "/things", []string{tk + "-a", tk + "-b", tk + "-c"})
@@ -294,7 +296,7 @@ func (w *World) do(r Req) (result string, wire *kit.Wire, err error) {
 		v, wr, e := t.Action("things", "/things", "sum", body)
 		return v, wr, e
 	case "entity-action":
-		v, wr, e := t.Action("things", "/things/"+tk, "poke", body)
+		v, wr, e := t.Action("things", ent, "poke", body)
 		return v, wr, e
 	}
 	return "", nil, errors.New("unknown kind " + r.Kind)
@@ -485,21 +487,22 @@ func SharedExtraHeaders(seed int64, n, goroutines int) (problems []string, compa
 				tk := fmt.Sprintf("zq%dx", i)
 				t := &kit.Typed{Base: base, Threshold: 300, Transport: stubTransport{}, Extra: static}
 				q := "p=" + tk
+				ent := "/things/" + tk
 				body := []byte(fmt.Sprintf(`{"v":%q}`, tk))
 				var wire *kit.Wire
 				var err error
 				switch kind {
 				case "get":
-					_, wire, err = t.Get("things", "/things/"+tk, &q)
+					_, wire, err = t.Get("things", ent, &q)
 				case "get-long":
 					long := q + "&pad=" + strings.Repeat("a", 400)
-					_, wire, err = t.Get("things", "/things/"+tk, &long)
+					_, wire, err = t.Get("things", ent, &long)
 				case "update":
-					wire, err = t.Update("things", "/things/"+tk, body)
+					wire, err = t.Update("things", ent, body)
 				case "partial_update":
-					wire, err = t.PartialUpdate("things", "/things/"+tk, []byte(`{"patch":{"$set":{"v":"`+tk+`"}}}`))
+					wire, err = t.PartialUpdate("things", ent, []byte(`{"patch":{"$set":{"v":"`+tk+`"}}}`))
 				case "delete":
-					wire, err = t.Delete("things", "/things/"+tk)
+					wire, err = t.Delete("things", ent)
 				}
 				w := expect[kind]
 				p := ""
